@@ -18,8 +18,13 @@ IPChoices1 == {{}, {"10.0.1.1"}}
 IPChoices2 == {{}, {"10.0.1.1"}, {"10.0.1.1", "10.0.1.2"}}
 IPChoicesB == {{}, {"10.0.1.1"}, {"10.0.1.1", "10.0.2.1"}}
 
+NoChoices == {}
+IPsSim(b) == IF b = B1 THEN {"10.0.1.1", "10.0.1.2"} ELSE {"10.0.2.1"}
+ChP1b == [handle |-> "k8s-pod-network.p1-b", kind |-> "pod", owner |-> "p1"]
+VMChoices == {ChP1, ChV1, ChT}
+IPsNone(b) == {}
 QuickChoices == {ChP1}
-MidChoices == {ChP1, ChT}
+MidChoices == {ChP1, ChP2, ChP1b, ChT, ChO}
 FullChoices == {ChP1, ChP2, ChV1, ChT, ChO}
 StateBound == syncNo <= MaxSyncs /\ \A b \in DOMAIN store : store[b].seqno <= MaxSeq
 ==============================================================================
